@@ -11,7 +11,7 @@ RULE = ('python-random histories: three well-behaved clients (names, match rules
         'messages of both byte orders (length words at limit values, bad padding/booleans/UTF-8/signatures/type/version/serial, reserved '
         'Local interface and path, forged fields), truncations followed by silence then abrupt close, trailing garbage, random garbage, '
         'oversized messages, floods of valid messages, re-Hello, traffic before Hello, abrupt closes; plus strangers that never authenticate '
-        '(junk, half handshakes, over-long lines, connect-and-go, up to 24 kept open); every eighth scenario fills max_incomplete_connections exactly '
+        '(junk, half handshakes, over-long lines, connect-and-go, up to 24 kept open); every eighth scenario fills max_incomplete_connections exactly (in half of them one of the unfinished connections leaves and its place must be usable again at once) '
         'with authenticated connections that then all say Hello, after which new clients must be served.  Wire.tla decides per write whether it is a message, '
         'invalid or incomplete; TLC requires every inbox of every client to be exactly what Bus.tla stages (so nothing of an invalid '
         'message is visible and every bystander call is answered), no stalled barrier, daemon alive without sanitizer report; '
@@ -140,6 +140,13 @@ def at_the_incomplete_limit(rng):
         rounds.append({'ops': {str(s): [{'k': 'connect', 'uid': 0}]}})
     order = slots[:]
     rng.shuffle(order)
+    if rng.random() < 0.5:
+        # one of them leaves without ever saying Hello: the place it held must become usable again at once -- a
+        # newcomer is accepted while the others are still incomplete (the limit is reached again), and so on
+        gone = order.pop(0)
+        rounds.append({'ops': {str(gone): [{'k': 'aclose'}]}})
+        rounds.append({'ops': {str(gone): [{'k': 'connect', 'uid': 0}]}})
+        rounds.append({'ops': {str(gone): [{'k': 'hello'}, {'k': 'query', 'q': 'list'}]}})
     for s in order:
         rounds.append({'ops': {str(s): [{'k': 'hello'}]}})
     rounds.append({'ops': {'2': [{'k': 'connect', 'uid': 0}, {'k': 'hello'}, {'k': 'req', 'n': 'com.example.A', 'f': 0}]}})
